@@ -458,6 +458,7 @@ class SimSocket:
             d = self.send_stall.pop(self.send_calls)
             self.send_stall.pop(self.send_calls + 1, None)  # the retry after the wait is not refused again
             self.unwritable_until = k.now + d
+            k.after(d, lambda: None)  # an event at the instant the window opens again, so that waiters without a deadline wake
             self.net.count("send_stall")
             k.ev("send_stall", self.fd, d)
             raise BlockingIOError(errno.EAGAIN, "Resource temporarily unavailable")
